@@ -736,6 +736,80 @@ func assocIndexInline(src string) bool {
 	return assoc && hit
 }
 
+// dollarParamAfterSideEffect: some arithmetic expression of the program contains both a
+// `$name` operand that Simplify inlines and an operator that modifies the same name
+// (++ -- or an assignment operator).
+func dollarParamAfterSideEffect(src string) bool {
+	f, err := parse(src)
+	if err != nil {
+		return false
+	}
+	hit := false
+	checkRoot := func(x syntax.ArithmExpr) {
+		if x == nil {
+			return
+		}
+		inlined := map[string]bool{}
+		modified := map[string]bool{}
+		syntax.Walk(x, func(n syntax.Node) bool {
+			switch n := n.(type) {
+			case *syntax.Word:
+				if len(n.Parts) == 1 {
+					if pe, ok := n.Parts[0].(*syntax.ParamExp); ok {
+						if fl, ok := paramFlags(pe); ok && fl == 0 && syntax.ValidName(pe.Param.Value) {
+							inlined[pe.Param.Value] = true
+						}
+					}
+				}
+			case *syntax.UnaryArithm:
+				if n.Op == syntax.Inc || n.Op == syntax.Dec {
+					if w, ok := n.X.(*syntax.Word); ok {
+						modified[w.Lit()] = true
+					}
+				}
+			case *syntax.BinaryArithm:
+				if binAritCode(n.Op) < 20 {
+					if w, ok := n.X.(*syntax.Word); ok {
+						modified[w.Lit()] = true
+					}
+				}
+			}
+			return true
+		})
+		for name := range inlined {
+			if modified[name] {
+				hit = true
+			}
+		}
+	}
+	syntax.Walk(f, func(n syntax.Node) bool {
+		switch n := n.(type) {
+		case *syntax.ArithmExp:
+			checkRoot(n.X)
+		case *syntax.ArithmCmd:
+			checkRoot(n.X)
+		case *syntax.LetClause:
+			for _, e := range n.Exprs {
+				checkRoot(e)
+			}
+		case *syntax.CStyleLoop:
+			checkRoot(n.Init)
+			checkRoot(n.Cond)
+			checkRoot(n.Post)
+		case *syntax.ParamExp:
+			if n.Slice != nil {
+				checkRoot(n.Slice.Offset)
+				checkRoot(n.Slice.Length)
+			}
+			checkRoot(n.Index)
+		case *syntax.Assign:
+			checkRoot(n.Index)
+		}
+		return true
+	})
+	return hit
+}
+
 // subshellLevelObserved: the program reads BASH_SUBSHELL inside a subshell that
 // inlineSubshell collapses (a lone plain subshell directly inside a subshell or $( )).
 func subshellLevelObserved(src string) bool {
@@ -837,6 +911,7 @@ func main() {
 			"declare -A x; i=3; x[$i+1]=v; echo \"${!x[@]}\"\n",
 			"declare -A x; i=3; x[$i+1]=v; echo \"${x[3+1]}\"\n",
 			"( (echo $BASH_SUBSHELL) )\n",
+			"c=-2; echo $((++c, $c))\n",
 		} {
 			cases = append(cases, &searchCase{Src: w, From: "witness"})
 		}
@@ -904,6 +979,8 @@ func main() {
 					c.Class = "assoc_index_param_inlined"
 				} else if onlyBash && subshellLevelObserved(c.Src) {
 					c.Class = "bash_subshell_level_observed"
+				} else if onlyBash && dollarParamAfterSideEffect(c.Src) {
+					c.Class = "arith_dollar_param_after_side_effect"
 				}
 			}
 			if len(c.Fails) == 0 {
